@@ -37,7 +37,7 @@ func init() {
 			"writes are writer-tagged, sequence-numbered 8-byte cells so interleaved Write calls stay decodable; single-reader sessions check the exact stream, multi-reader sessions check per-fragment chunk structure, no duplicate / lost cell, per-reader order; " +
 			"after both transports are closed every goroutine must return. non-trivial = both handshakes completed, data delivered, >= 4 distinct kinds of operation pairs overlapped in time; distinct by (plan, set of overlapping pairs). race leg: same sessions under -race",
 		MinNontrivial:         60,
-		MinNontrivialThorough: 2000,
+		MinNontrivialThorough: 1500,
 		Shards:                8,
 		RaceShards:            8,
 		RacePkgs:              []string{"zcrypto/tls"},
@@ -46,7 +46,7 @@ func init() {
 			"net.Conn semantics: methods may be called from several goroutines at once; concurrent Write calls are atomic per call (zcrypto holds the out lock for a whole Write)",
 			"GetHandshakeLog is not in the property's list of calls: it is only invoked after the calling goroutine's own Handshake returned",
 			"the in-memory transport synchronises same-side callers through its own mutex, as a kernel socket does",
-			"blocking rule budget: 20 s after both transports were closed; the 90 s watchdog of the transfer phase is inconclusive, never a verdict",
+			"blocking rule budget: 20 s after both transports were closed; the 45 s watchdogs of the transfer phase is inconclusive, never a verdict",
 		},
 		ChildTimeoutQuick: 1500,
 	}, runC34)
@@ -161,10 +161,12 @@ func genC34Plan(seed int64, leg string, idx int) *c34Plan {
 	return p
 }
 
+var c34Blocked int
+
 func runC34(c *core.Ctx) {
-	total := c.Pick(320, 12000)
+	total := c.Pick(320, 3000)
 	if c.Leg == "race" {
-		total = c.Pick(112, 6000)
+		total = c.Pick(112, 1000)
 	}
 	cells := map[string]cell{}
 	for _, cl := range serverCells() {
@@ -175,6 +177,10 @@ func runC34(c *core.Ctx) {
 	for i := 0; i < total; i++ {
 		if i%c.NShards != c.Shard {
 			continue
+		}
+		if c34Blocked >= 3 {
+			c.Note("C34: shard stopped after %d sessions with blocked goroutines (each is reported as a violation)", c34Blocked)
+			break
 		}
 		p := genC34Plan(c.Seed, c.Leg, i)
 		id := fmt.Sprintf("conc/%s/%d", c.Leg, i)
@@ -438,13 +444,13 @@ func runC34Session(c *core.Ctx, id string, cl cell, p *c34Plan, pairKinds map[st
 	go func() { wgWriters[0].Wait(); wgWriters[1].Wait(); wgCloser.Wait(); close(writersDone) }()
 	watchdog := false
 	coord := [2]*gState{{side: 0, role: "coordinator"}, {side: 1, role: "coordinator"}}
-	if waitTimeout(writersDone, 90*time.Second) {
+	if waitTimeout(writersDone, 45*time.Second) {
 		for s := 0; s < 2; s++ {
 			sess.op(coord[s], "CloseWrite", func() { conns[s].CloseWrite() })
 			// the transport's write side follows, so that the peer's readers end even if the alert could not be sent
 			transports[s].CloseWrite()
 		}
-		if !waitTimeout(allDone, 90*time.Second) {
+		if !waitTimeout(allDone, 45*time.Second) {
 			watchdog = true
 		}
 	} else {
@@ -467,6 +473,7 @@ func runC34Session(c *core.Ctx, id string, cl cell, p *c34Plan, pairKinds map[st
 				break
 			}
 		}
+		c34Blocked++
 		c.Violation(fmt.Sprintf("blocked-after-close:%s@%s", state, frame), "goroutines still inside zcrypto calls 20 s after both transports were closed\n"+dump, id, p)
 		return
 	}
@@ -483,7 +490,7 @@ func runC34Session(c *core.Ctx, id string, cl cell, p *c34Plan, pairKinds map[st
 	}
 	for _, g := range all {
 		for _, pi := range g.panics {
-			c.Violation(pi.Key, pi.Value+"\n"+pi.Stack, id, p)
+			c.Violation(panicKey(pi), pi.Value+"\n"+pi.Stack, id, p)
 		}
 	}
 
